@@ -272,7 +272,8 @@ Converges == <>[]Quiescent
 (* model: the code must treat the spellings alike and ignore the legacy record.                          *)
 Sp(type, fam, pol, share, ports, etp, sel, reqIPs, reqPool) ==
   [type |-> type, fam |-> fam, pol |-> pol, v6first |-> FALSE, cips |-> TRUE, share |-> share, ports |-> ports,
-   etp |-> etp, sel |-> sel, reqIPs |-> reqIPs, reqPool |-> reqPool, dep |-> FALSE, legacy |-> ""]
+   etp |-> etp, sel |-> sel, reqIPs |-> reqIPs, reqPool |-> reqPool, dep |-> FALSE, legacy |-> "", bad |-> FALSE]
+Bad(sp) == [sp EXCEPT !.bad = TRUE]
 Dep(sp) == [sp EXCEPT !.dep = TRUE]
 Legacy(sp, pn) == [sp EXCEPT !.legacy = pn]
 Plain == Sp("LB", "v4", "S", "", {"tcp80"}, "Cluster", "x", <<>>, "")
@@ -289,6 +290,8 @@ SpecsReq(s) ==
     Sp("LB", "v4", "S", "", {"tcp80"}, "Cluster", "x", <<1>>, ""),
     Sp("LB", "v4", "S", "", {"tcp80"}, "Cluster", "x", <<>>, "p2"),
     Dep(Sp("LB", "v4", "S", "", {"tcp80"}, "Cluster", "x", <<>>, "p2")),
+    Sp("LB", "v4", "S", "", {"tcp80"}, "Cluster", "x", <<0>>, "p2"),
+    Bad(Plain),
     Sp("LB", "v4", "S", "k1", {"tcp80"}, "Cluster", "x", <<>>, ""),
     Dep(Sp("LB", "v4", "S", "k1", {"tcp443"}, "Cluster", "x", <<>>, "")) }
 SpecsPlain(s) == { Plain }
@@ -306,7 +309,7 @@ InitTwo == [s \in {"s1", "s2"} |-> Plain]
 (* failing writes: a request that cannot be met (address in no pool), a request for the only address, a re-type *)
 SpecsFault(s) ==
   { Plain, Sp("LB", "v4", "S", "", {"tcp80"}, "Cluster", "x", <<5>>, ""),
-    Sp("LB", "v4", "S", "", {"tcp80"}, "Cluster", "x", <<0>>, ""),
+    Sp("LB", "v4", "S", "", {"tcp80"}, "Cluster", "x", <<0>>, ""), Bad(Plain),
     Sp("CIP", "v4", "S", "", {"tcp80"}, "Cluster", "x", <<>>, "") }
 InitOne == [s \in {"s1"} |-> Plain]
 InitThree == [s \in {"s1", "s2", "s3"} |-> Plain]
